@@ -372,6 +372,17 @@ func runC19(c C19Case, o *run.Obs) error {
 		w2.KeyCompare = cmp
 	}
 	w2.Cache, _ = core.MakeCache(c.Cfg.Cache)
+	switch c.Perturb {
+	case "reverse-compare", "zero-compare", "raise-height", "change-bf", "none":
+		// perturbations of the loader configuration / root record only: the top node may come from the
+		// writer's warm cache and must be checked like a freshly loaded one. (With a swapped format a
+		// cached, already deserialized node is never decoded, so "undecodable" cannot be observed there:
+		// such cases always use a cold cache.)
+		if c.B%2 == 0 && w.Cache != nil {
+			w2.Cache = w.Cache
+			o.Label("warm-shared-cache")
+		}
+	}
 	var lm *mast.Mast
 	var lerr error
 	perr := core.Safely("LoadMast", func() error {
